@@ -459,8 +459,8 @@ func queryClasses(q *Q, s *qstat) []string {
 const queriesPerCorpus = 50
 
 func TestC07Corpus(t *testing.T) {
-	// quick: 4 shards x 60 corpora x 50 queries; thorough: 16 shards x 1000 corpora
-	vlib.Check(t, 60, 1000, func(rt *rapid.T) {
+	// quick: 4 shards x 60 corpora x 50 queries; thorough: 16 shards x 600 corpora
+	vlib.Check(t, 60, 600, func(rt *rapid.T) {
 		p := genPools(rt)
 		corpus := genCorpus(rt, p)
 		m := newModel(corpus.liveDocs())
